@@ -233,3 +233,21 @@ package xlsx
 //@   loop 5:
 //@     invariant minCol <= col && col <= maxCol + 1 && cells == entry(cells) + col - minCol
 //@     decreases maxCol + 1 - col
+
+// ---- C17: tab-separated text: line r of a sheet has exactly len(row)-1 delimiters, so field c is the cell (r, c);
+// a covered merged cell leaves its field blank instead of dropping it.  `delims` counts the delimiter writes
+// (the 6th WriteString call of the function), `values` the cell-value writes (the 7th).
+//@ func (*Reader) TextWithOptions results (txt, err)
+//@   property C17
+//@   flags nosafety
+//@   requires forall k int :: {r.sheets[k]} 0 <= k && k < len(r.sheets) ==> !isnil(r.sheets[k])
+//@   count delims: WriteString(s) when $ord == 6
+//@   callsite WriteString#7(s) requires value_of_the_cell_in_place: s == sheet.Rows[rowIdx][colIdx].Value
+//@   loop 0:
+//@     invariant forall k int :: {sheets[k]} 0 <= k && k < len(sheets) ==> !isnil(sheets[k])
+//@   loop 1:
+//@     invariant forall k int :: {sheets[k]} 0 <= k && k < len(sheets) ==> !isnil(sheets[k])
+//@   loop 2:
+//@     step one_delimiter_between_fields: delims == prev(delims) + (len(row) > 0 ? len(row) - 1 : 0)
+//@   loop 3:
+//@     invariant delims == entry(delims) + ($i > 0 ? $i - 1 : 0)
